@@ -11,7 +11,7 @@ From JRGen Require Extracted.
    8 *errors.errorString 10 valReg 11 *fmt.wrapError (wrapping a registered error: itself unregistered) *)
 Definition tk (n : N) (p : bool) : tykey := {| ty_name := n; ty_ptr := p |}.
 Definition reg_key (kind : N) : tykey :=      (* regType(kind): what Register(c, new(...)) stores *)
-  match kind with 1%N => tk 1 false | 10%N => tk 10 false | k => tk k true end.
+  match kind with 1%N => tk 1 false | 10%N => tk 10 false | 15%N => tk 15 false | k => tk k true end.
 
 (* capabilities follow the method set of the pointer type (all these types use pointer receivers for the conversions;
    the value types have none) *)
@@ -24,8 +24,14 @@ Definition caps_of (k : tykey) : caps :=
   | 7%N => {| is_codec := true; is_marshalable := false |}
   | 13%N => {| is_codec := true; is_marshalable := false |}
   | 14%N => {| is_codec := true; is_marshalable := false |}
+  | 15%N => {| is_codec := true; is_marshalable := false |}
   | _ => {| is_codec := false; is_marshalable := false |}
   end.
+(* on the server the capabilities are those of the error value's own dynamic type: kind 15 is returned as a value whose
+   reading half (FromJSONRPCError) has a pointer receiver, so the value type is not a full codec there; the client builds a
+   pointer to the registered type and asks that (caps_of) *)
+Definition caps_srv (k : tykey) : caps :=
+  match ty_name k with 15%N => {| is_codec := false; is_marshalable := false |} | _ => caps_of k end.
 Definition acc_codec (k : tykey) (_ : wire_err) : bool := negb (N.eqb (ty_name k) 7).
 (* UnmarshalJSON of marshErr / bothErr decodes an object into a struct; failUnmarshal always refuses *)
 Definition acc_meta (k : tykey) (j : json) : bool :=
@@ -55,6 +61,7 @@ Definition mk_err (kind : N) (msg : bytes) (n : Z) : option errval :=
   (* a codec error whose own wire message is empty while its Error() text is not: the codec's fields travel, not Error() *)
   | 14%N => Some {| ev_ty := tk 14 true; ev_msg := (bs "emc: " ++ msg)%list;
                     ev_codec := Some (47%Z, [], Some (JStr (bs "d-" ++ z_lit n)%list)); ev_meta := None |}
+  | 15%N => ev (tk 15 false) None None
   | 11%N | 12%N => Some {| ev_ty := tk 11 true; ev_msg := (bs "ctx: " ++ msg)%list; ev_codec := None; ev_meta := None |}
   | _ => None
   end.
@@ -84,7 +91,7 @@ Definition expect_fields (k : tykey) (p : option (wire_err + json)) (obs : json)
   | 3%N, Some (inr j) => json_eqb obs (JObj [(bs "M", match field "M" j with JNull => JStr [] | v => v end);
                                              (bs "N", match field "N" j with JNull => zn 0 | v => v end)])
   | 3%N, None => json_eqb obs (JObj [(bs "M", JStr []); (bs "N", zn 0)])
-  | (4%N | 13%N | 14%N), Some (inl w) => json_eqb (field "code" obs) (zn (we_code w)) && json_eqb (field "message" obs) (JStr (we_msg w))
+  | (4%N | 13%N | 14%N | 15%N), Some (inl w) => json_eqb (field "code" obs) (zn (we_code w)) && json_eqb (field "message" obs) (JStr (we_msg w))
                          && json_eqb (field "data" obs) (opt_json (we_data w))
   | 5%N, Some (inl w) => json_eqb (field "code" obs) (zn (we_code w)) && json_eqb (field "message" obs) (JStr (we_msg w))
                          && json_eqb (field "data" obs) (opt_json (we_data w)) && json_eqb (field "X" obs) (zn 0)
@@ -96,7 +103,7 @@ Definition ecase_ok (c : ecase) : bool :=
   let msg := unpack (ec_msg c) in
   let r := (zn 5, mk_err (ec_kind c) msg (ec_n c)) in
   let '(v, e) := receive caps_of acc_codec acc_meta (build_c (ec_creg c)) (zn 0)
-                   (serve caps_of (build_s (ec_sreg c)) r) in
+                   (serve caps_srv (build_s (ec_sreg c)) r) in
   (if ec_valerr c then json_eqb v (zn (ec_val c)) else true) &&
   match e with
   | None => ec_nil c
